@@ -58,6 +58,12 @@ class C09(Check):
             elif r < 0.75:
                 j = rng.randrange(len(case["value"]))
                 case["ops"].append(["dlookup", rng.choice(keys), j, rng.choice(["read", "write"]), rv(rng, case["value"][j])])
+                same = [(a, b) for a in range(len(case["hashvars"])) for b in range(len(case["hashvars"]))
+                        if a != b and case["hashvars"][a][0] == case["hashvars"][b][0]]
+                if same and rng.random() < 0.5:
+                    # inside the lookup block, before the found entry is used, one hash-map variable is copied to another
+                    # (two more helper calls while r0 points to the entry)
+                    case["ops"][-1].append(list(rng.choice(same)))
             else:
                 # optionally a hash variable is read between filling table.value and update() (its temporaries
                 # must not share stack bytes with the key / value areas)
@@ -150,6 +156,8 @@ class C09(Check):
                         setattr(e.table.key, f"k{i}", kv)
                     with e.table.lookup() as (value, Else):
                         setattr(e, f"mark{j}", 1)
+                        if len(op) > 5:
+                            setattr(e, f"h{op[5][0]}", getattr(e, f"h{op[5][1]}"))
                         if op[3] == "read":
                             setattr(e, f"mir{j}", getattr(value, f"v{op[2]}"))
                         else:
@@ -299,6 +307,8 @@ class C09(Check):
                 if o["locals"][f"mark{j}"] != (1 if present else 2):
                     return f"lookup of {'present' if present else 'absent'} key {key} took the {'body' if o['locals'][f'mark{j}'] == 1 else 'Else'} branch" + what
                 if present:
+                    if len(op) > 5:
+                        hv[op[5][0]] = hv[op[5][1]]
                     f = case["value"][op[2]]
                     if op[3] == "read":
                         got = o["locals"][f"mir{j}"] if f.islower() else o["locals"][f"mir{j}"] % (1 << 64)
